@@ -167,7 +167,7 @@ func main() {
 		"fault_kinds":                           "error on OpenWrite/OpenRead/WriteAt/ReadAt/Sync/Truncate/Delete; short write (half the bytes) on WriteAt; second fault = error on every call of the rollback",
 		"crash_unsynced_subset_cap_bits":        r.Pick(4, 10),
 		"crash_torn_last_write":                 "0 (dropped) / half / full",
-		"violations_confirmed_under_rand_seeds": "1..8, 3 runs each",
+		"violations_confirmed_under_rand_seeds": "1..16, 3 runs each",
 	})
 
 	// confirm every violation 3x on fresh instances before printing it
@@ -184,23 +184,34 @@ func main() {
 		v := viols.m[k]
 		confirmed := false
 		var seen []string
-		for seed := int64(1); seed <= 8 && !confirmed; seed++ {
+		for seed := int64(1); seed <= 16 && !confirmed; seed++ {
 			v.replay.Seed = seed
-			ok := true
+			var gots []string
 			for i := 0; i < 3; i++ {
 				got := replayKey(v.replay)
-				if got != v.key {
-					ok = false
-					seen = append(seen, fmt.Sprintf("seed %d run %d: %q", seed, i+1, got))
-					if i > 0 {
-						// same seed, different verdicts: real non-determinism
-						cleanupAll()
-						r.Broken("violation %q flips under a fixed seed (%v): %s", v.key, seen, v.what)
-					}
+				gots = append(gots, got)
+				if got != gots[0] {
+					// same seed, different verdicts: real non-determinism
+					cleanupAll()
+					r.Broken("violation %q flips under a fixed seed %d (%q): %s", v.key, seed, gots, v.what)
+				}
+				if got == "" {
 					break
 				}
 			}
-			confirmed = ok
+			if gots[0] == "" {
+				seen = append(seen, fmt.Sprintf("seed %d: passes", seed))
+				continue
+			}
+			if gots[0] != v.key {
+				// the tree shape of this seed turns the same history into a
+				// differently classified failure: still a reproducible violation
+				// of the same history; reported under the class that reproduces
+				seen = append(seen, fmt.Sprintf("seed %d: %q", seed, gots[0]))
+				v.what = fmt.Sprintf("%s [first seen as %q; under the fixed seed %d the same history fails as %q: %s]", v.what, v.key, seed, gots[0], lastReplayDetail)
+				v.key = gots[0]
+			}
+			confirmed = true
 		}
 		if !confirmed {
 			cleanupAll()
